@@ -32,15 +32,20 @@ KNOWN_MLOEMPTY = "MultiLineOnlyMatchingDropsEmptyMatches"
 LINE_PATTERNS = [
     "a", "b+", "$", "^", r"\b", r"\B", "x*", "a|$", "c|$", "^$", r"\w+", "[ab]", "a.", ".", r"\s", "(?:ab)?", "b$",
     "^a", r"a\b", r"\ba", "A", "ab|b", r"\S+\s*", "a*", "(a|b)(a|b)", r"^\s*$", "c$|^a", r"\bx?\b", "y?$", r"[^a]", "ba*",
+    # patterns that can only match by consuming the last byte of a line (a trailing \r of a DOS file searched without --crlf)
+    r"\w+\r", r"[abc]\s", r"[a-z]+\s*$", "c.", r"\S\s+$", r"a\r?$",
 ]
 ML_PATTERNS = [
     r"a\nb", r"\n", r"a\n", r"b\n+", "(?s)a.b", r"a|\n\n", r"\n$", r"[a\n]+", r"a\s+b", r"^a\n", r"\nb$", r"b\n\n?",
     r"a$\n", r"(?s).+", r"\n\n", r"a\n?", r"\s+", r"a[^x]*b", r"\r?\n",
+    # a match that ends at a line terminator followed by an assertion looking past the reported lines
+    r"a\n\b", r"b\n\B", r"(?m)a\n^", r"c\n$", r"[ab]\n\b", r"\w\n(?:\b|$)", r"x\n\b",
 ]
 ALPH = b"ab xycA\t"
 
 
-def gen_file(rng, crlf, long_tail=False):
+def gen_file(rng, crlf, long_tail=False, dos=False):
+    """crlf: the search runs with --crlf; dos: the file has \\r\\n line ends although the search does not"""
     if rng.random() < 0.05:
         return b""
     lines = []
@@ -53,12 +58,12 @@ def gen_file(rng, crlf, long_tail=False):
     if long_tail:
         for _ in range(rng.randint(25, 40)):
             lines.append(bytes(rng.choice(b"xyz ") for _ in range(5)))
-    term = b"\r\n" if crlf else b"\n"
+    term = b"\r\n" if (crlf or dos) else b"\n"
     s = b""
     for i, ln in enumerate(lines):
         s += ln
         if i + 1 < len(lines) or rng.random() < 0.6:
-            s += term if (not crlf or rng.random() < 0.9) else b"\n"
+            s += term if (not (crlf or dos) or rng.random() < 0.9) else b"\n"
     return s
 
 
@@ -124,8 +129,9 @@ def gen_case(rng, relations):
     fl = gen_flags(rng, relations)
     pat = gen_pattern(rng, fl)
     nfiles = rng.randint(1, 4)
-    long_tail = fl.get("multiline") and rng.random() < 0.08
-    files = [(NAMES[i], gen_file(rng, fl.get("crlf"), long_tail)) for i in range(nfiles)]
+    long_tail = fl.get("multiline") and rng.random() < 0.12
+    dos = (not fl.get("crlf")) and rng.random() < 0.15
+    files = [(NAMES[i], gen_file(rng, fl.get("crlf"), long_tail, dos and rng.random() < 0.8)) for i in range(nfiles)]
     if not relations and rng.random() < 0.2:
         files[rng.randrange(nfiles)] = (None, gen_file(rng, fl.get("crlf")))
     if not relations and fl.get("binary") and rng.random() < 0.7:
@@ -380,6 +386,12 @@ def check_library(ctx, cases):
             feat["max_count"] = feat.get("max_count", 0) + 1
         if any(d and not d.endswith(b"\n") for _, d in c["files"]):
             feat["no_final_newline"] = feat.get("no_final_newline", 0) + 1
+        if not c["flags"].get("crlf") and any(b"\r\n" in d for _, d in c["files"]):
+            feat["dos_file_without_crlf_flag"] = feat.get("dos_file_without_crlf_flag", 0) + 1
+        if c["flags"].get("multiline") and re.search(r"\\n(\\b|\\B|\^|\$|\(\?:)", c["pattern"]):
+            feat["lookahead_after_terminator"] = feat.get("lookahead_after_terminator", 0) + 1
+        if any(len(d) > 160 for _, d in c["files"]):
+            feat["match_far_from_eof_possible"] = feat.get("match_far_from_eof_possible", 0) + 1
         if c["relations"]:
             outs["_multi"] = r[4]
             if outs["_multi"]:
@@ -422,6 +434,7 @@ def cli_outputs(c, tree, extra):
     res["count_stats"] = run(["-c", "--include-zero", "--stats"])
     res["json"] = run(["--json"])
     res["json_stats"] = run(["--json", "--stats"])
+    res["json_q"] = run(["--json", "-q"])
     # mode normalisation (hiargs.rs): -v --count-matches => --count ; -o --count => --count-matches
     res["norm_vcm"] = run(["-v", "--count-matches", "--include-zero"])
     res["norm_vc"] = run(["-v", "-c", "--include-zero"])
@@ -525,6 +538,41 @@ def check_cli(ctx, c, lib_outs):
             if summary[k] != sum(e[k] for e in ends):
                 v("JSON summary.%s is not the sum over the end messages" % k, summary=summary[k],
                   ends=[e[k] for e in ends])
+    # --quiet with statistics (-q --stats, and --json -q where statistics are implicit) must still search every
+    # file: the totals are the sums of what the per-file modes report
+    nl = len(parse_paths(r["l"][1]))
+    cnt = parse_counts(r["count"][1])
+    cmc = parse_counts(r["cm"][1])
+    multi = bool(lib_outs.get("_multi"))
+
+    def quiet_totals(name, tot):
+        # tot = (matches, matched_lines, files with matches, files searched)
+        if tot[3] != nfiles:
+            v("%s: 'files searched' is not the number of files" % name, got=tot[3], files=nfiles)
+        if tot[2] != nl:
+            v("%s: 'files contained matches' is not the number of files -l lists" % name, got=tot[2], listed=nl)
+        if not multi and b"?" not in cnt and tot[1] != sum(cnt.values()):
+            v("%s: 'matched lines' is not the sum of the --count values" % name, got=tot[1], counts=cnt)
+        if not fl.get("invert") and b"?" not in cmc and tot[0] != sum(cmc.values()) and not (multi and c["mx"] is not None):
+            v("%s: 'matches' is not the sum of the --count-matches values" % name, got=tot[0], counts=cmc)
+    body, tot = split_stats(r["q_stats"][1])
+    if tot is None:
+        v("no --stats block under -q --stats")
+    else:
+        if body != b"":
+            v("-q --stats printed search output", out=body)
+        quiet_totals("-q --stats", (tot[0], tot[1], tot[2], tot[3]))
+    jq = [ln for ln in r["json_q"][1].split(b"\n") if ln]
+    if len(jq) != 1:
+        v("--json -q must print exactly the summary message", out=r["json_q"][1])
+    else:
+        try:
+            st = pyjson.loads(jq[0].decode("utf-8"))["data"]["stats"]
+            quiet_totals("--json -q", (st["matches"], st["matched_lines"], st["searches_with_match"], st["searches"]))
+        except Exception:
+            v("--json -q: unparsable summary", out=jq[0])
+    if r["json_q"][0] != r["q"][0]:
+        v("exit status of --json -q differs from -q", a=r["json_q"][0], b=r["q"][0])
     # the JSON messages of the CLI are the library's
     cli_msgs = [ln for ln in r["json"][1].split(b"\n") if ln and b'"type":"summary"' not in ln]
     if len(cli_msgs) != len(lib_outs["json"][0]):
@@ -572,6 +620,16 @@ def corpus():
         mk(r"a\nb", U, [b"a\nb\na\nb\nc\n", b"a\n"]),
         mk(r"(?s).+", U, [b"a\nb\n"]),
         mk(r"\n", U, [b"\n\n\n"]),
+        # a multi-line match whose last assertion looks past the reported lines, near and far from the end of input
+        mk(r"foo\n\b", U, [b"xx foo\nbar\n", b"xx foo\nbar\n" + b"z z\n" * 40, b"foo\n"]),
+        mk(r"(?m)a\n^", U, [b"a\nb", b"a\n" + b"y" * 130 + b"\n"]),
+        # DOS line ends searched without --crlf: the \r is line content for searcher and printers alike
+        mk("bar.", L, [b"foo bar\r\nbaz\r\nbar\r\n", b"bar\n"]),
+        mk(r"\w+\r", L, [b"ab\r\ncd\r\n"]),
+        mk(r"[a-z]+\s*$", dict(L, ignore_case=1), [b"Foo Bar\r\nx\r\n"]),
+        # -m N with statistics on (summary printer), several files, a non-last file matching (--json -q, -q --stats)
+        mk("a", L, [b"a\na\na\nb\n", b"b\n", b"a a\na\n"], mx=2),
+        mk("a", L, [b"a\n", b"a\n", b"b\n"]),
     ]
 
 
